@@ -215,9 +215,6 @@ impl Op {
             _ => true,
         }
     }
-    pub fn is_fold(self) -> bool {
-        matches!(self, Op::Fold { .. } | Op::CFold { .. })
-    }
 }
 
 /// Normalised operator output (whatever the map type, compared as `BTreeMap`s).
